@@ -444,3 +444,66 @@ def degree_local(fi):
     if len(names) != 1:
         raise AnalysisError('%s: the degree local (bound to len(coefficients) - 1) was not found uniquely: %s' % (fi.qual, names))
     return names[0]
+
+
+def reachable_calls(db, fi, depth=4):
+    """Names of everything `fi` calls, directly or through prysm functions / methods of its own class it calls (helpers
+    extracted during a clean-up are looked through): a set of callee names as written (`fftrange`, `np.meshgrid`,
+    `self._build`), plus the bare names of resolved prysm callees."""
+    from ..core.db import walk_no_nested
+    seen, out = set(), set()
+
+    def rec(f, d):
+        if f.qual in seen or d < 0:
+            return
+        seen.add(f.qual)
+        for n in walk_no_nested(f.node):
+            if not isinstance(n, ast.Call):
+                continue
+            txt = ast.unparse(n.func)
+            out.add(txt)
+            g = None
+            if isinstance(n.func, ast.Name):
+                r = db.resolve_name(f.module, n.func.id)
+                g = r if hasattr(r, 'node') and hasattr(r, 'qual') and isinstance(getattr(r, 'node', None), ast.FunctionDef) else None
+            elif isinstance(n.func, ast.Attribute) and isinstance(n.func.value, ast.Name) and n.func.value.id in ('self', 'cls') and f.cls is not None:
+                g = db.method(f.cls, n.func.attr)
+            if g is not None:
+                out.add(g.name)
+                rec(g, d - 1)
+    rec(fi, depth)
+    return out
+
+
+def bind_call(fi, args, kwargs):
+    """The values a call binds to the parameters of `fi` (positional then keyword): {parameter name: value}."""
+    params = list(fi.params)
+    if fi.cls is not None and params and params[0] in ('self', 'cls') and 'staticmethod' not in getattr(fi, 'decorators', ()):
+        params = params[1:]
+    out = {}
+    for p, a in zip(params, args):
+        out[p] = a
+    for k, v in kwargs.items():
+        out[k] = v
+    return out
+
+
+def capture_calls(it, dom, f, kwargs, callees, result, self_obj=None):
+    """Interpret `f` with the prysm functions named in `callees` (qualified names) summarised: every call is recorded as
+    (callee FuncInfo, {parameter: value}, call node, path conditions) whatever way the arguments are passed (positionally, by
+    keyword, through **dict), and evaluates to result(fi, bound).  Returns (paths, calls)."""
+    calls = []
+    orig = dom.call_prysm
+
+    def call_prysm(fi, args, kw, node):
+        if fi.qual in callees:
+            b = bind_call(fi, args, kw)
+            calls.append((fi, b, node, list(it.conds)))
+            return result(fi, b)
+        return orig(fi, args, kw, node) if orig else None
+    dom.call_prysm = call_prysm
+    try:
+        paths = list(it.run(f, kwargs=kwargs, self_obj=self_obj))
+    finally:
+        dom.call_prysm = orig
+    return paths, calls
